@@ -4,7 +4,7 @@ import OpcuaModel.Model.Access
   Driver for C31.
     h <nsCount> <N> <node>*N <op>*           → <res>* | <final node>*N
       node  = ns:key:valDV:attr=DV,attr=DV,…   (attribute list `-` when empty)
-      op    = r:ns:key:attr | w:ns:key:attr:DV
+      op    = r:ns:key:attr | w:ns:key:attr:DV[:f<extra fields: 1 status code, 2 source timestamp>]
       DV    = nil | nov | <ty>.<payload>
       res   = ok | bad | unk | den | inv | val:<DV> | panic
       final = valDV;al;ual;nodeclass
@@ -41,6 +41,9 @@ def parseOp (s : String) : Option Op :=
   match s.splitOn ":" with
   | ["r", ns, key, a] => do pure (.read (← ns.toNat?) (← key.toNat?) (← a.toNat?))
   | ["w", ns, key, a, d] => do pure (.write (← ns.toNat?) (← key.toNat?) (← a.toNat?) (← parseDV d))
+  -- a 6th field says which extra DataValue fields (status code, source timestamp) the request
+  -- carries; the code, and so the model, does not look at them
+  | ["w", ns, key, a, d, _] => do pure (.write (← ns.toNat?) (← key.toNat?) (← a.toNat?) (← parseDV d))
   | _ => none
 
 def showSt : St → String
